@@ -162,9 +162,13 @@ def split_ranges(intsize, step, start, end):
 
         not_mask = ~mask & ((1 << intsize + 1) - 1)
         nextstart = (start + diff if haslower else start) & not_mask
-        nextend = (end - diff if hasupper else end) & not_mask
+        nextend = end - diff if hasupper else end
+        # Near the bottom of the domain the upper edge can borrow below zero;
+        # masking a negative number would give a huge bogus upper bound
+        underflow = nextend < 0
+        nextend &= not_mask
 
-        if shift + step >= intsize or nextstart > nextend:
+        if shift + step >= intsize or underflow or nextstart > nextend:
             yield (start, setbits(end), shift)
             break
 
